@@ -487,6 +487,18 @@ def replay_file(path, repo):
     m_con = re.search(r"^CONTRACT = (.*)$", src, re.M)
     m_model = re.search(r"^MODEL = json.loads\((.*)\)$", src, re.M)
     if not (m_spec and m_con and m_model):
+        code = [l for l in src.split('\n') if l.strip() and not l.lstrip().startswith('#')]
+        if code and 'no native replay is available' not in src:
+            # a stand-alone replay script (contract- or lemma-specific): run it on the real code, exit 1 = the clause is violated
+            import subprocess
+            env = dict(os.environ, PYTHONPATH=repo)
+            r = subprocess.run(['/venv/bin/python', os.path.abspath(path)], cwd=repo, capture_output=True, text=True, timeout=300, env=env)
+            print((r.stdout + r.stderr)[-1500:])
+            if r.returncode == 1:
+                print('CLAUSE VIOLATED ON THE REAL CODE (replay script exit 1)')
+                return 1
+            print('the replay script does not reproduce a violation on this tree (exit %d)' % r.returncode)
+            return 0 if r.returncode == 0 else 2
         print('no native replay in this file: no-failing-input-found')
         return 2
     label = eval(m_spec.group(1))
